@@ -5,10 +5,18 @@ use serde_json::Value;
 use vcore::{Ctx, Verdict, EXIT_INCONCLUSIVE, EXIT_OK, EXIT_VIOLATION};
 
 pub mod c01;
+pub mod c02;
+pub mod c03;
+pub mod c04;
+pub mod c07;
 
 pub fn run(ctx: &Ctx) -> i32 {
     let verdict: Verdict = match ctx.prop.as_str() {
         "C01" => c01::run(ctx),
+        "C02" => c02::run(ctx),
+        "C03" => c03::run(ctx),
+        "C04" => c04::run(ctx),
+        "C07" => c07::run(ctx),
         other => {
             eprintln!("rt: property {other} is not served by this engine");
             return EXIT_INCONCLUSIVE;
@@ -21,6 +29,10 @@ pub fn run(ctx: &Ctx) -> i32 {
 pub fn replay_case(prop: &str, sub: &str, case: Value) -> Result<(), String> {
     match prop {
         "C01" => c01::replay(sub, case),
+        "C02" => c02::replay(sub, case),
+        "C03" => c03::replay(sub, case),
+        "C04" => c04::replay(sub, case),
+        "C07" => c07::replay(sub, case),
         other => Err(format!("HARNESS: no replay for property {other}")),
     }
 }
